@@ -30,6 +30,22 @@ type SpecCtx struct {
 	depth int
 	allocMark *Term
 	inOld     bool
+	// calleeGhost is set while a callee's ensures are assumed at a call site: call counters,
+	// last arguments and last results named there belong to the callee's own execution (they
+	// count from its entry), so each is an unknown of this call, never the caller's record.
+	calleeGhost map[string]*Term
+}
+
+func (c *SpecCtx) calleeGhostTerm(key string, srt string, nonneg bool) *Term {
+	if t, ok := c.calleeGhost[key]; ok {
+		return t
+	}
+	t := c.x.freshConst(c.st, "cg", srt)
+	if nonneg {
+		c.x.assume(c.st, app(SBool, ">=", t, IntLit(0)), "callee call counter")
+	}
+	c.calleeGhost[key] = t
+	return t
 }
 
 func (c *SpecCtx) fail(format string, a ...interface{}) {
@@ -649,17 +665,26 @@ func (c *SpecCtx) call(e *ast.CallExpr) *Val {
 			return intV(Ite(Ge(a, b), a, b))
 		case "ncalls":
 			name := c.strArg(e.Args[0])
+			if c.calleeGhost != nil {
+				return intV(c.calleeGhostTerm("ncalls:"+name, SInt, true))
+			}
 			if t, ok := c.st.ghost["ncalls:"+name]; ok {
 				return intV(t)
 			}
 			return intV(IntLit(0))
 		case "called":
 			name := c.strArg(e.Args[0])
+			if c.calleeGhost != nil {
+				return boolV(c.calleeGhostTerm("called:"+name, SBool, false))
+			}
 			_, ok := c.st.ghost["ncalls:"+name]
 			return boolV(BoolLit(ok))
 		case "lastarg":
 			name := c.strArg(e.Args[0])
 			i := c.eval(e.Args[1]).T.lit.Int64()
+			if c.calleeGhost != nil {
+				return scalar(c.calleeGhostTerm(fmt.Sprintf("lastarg:%s:%d", name, i), SInt, false), nil)
+			}
 			if t, ok := c.st.ghost[fmt.Sprintf("lastarg:%s:%d", name, i)]; ok {
 				return scalar(t, nil) // per-path record (scalar arguments)
 			}
@@ -672,6 +697,9 @@ func (c *SpecCtx) call(e *ast.CallExpr) *Val {
 			// lastret("callee", i): scalar result i of the last call to callee on this path
 			name := c.strArg(e.Args[0])
 			i := c.eval(e.Args[1]).T.lit.Int64()
+			if c.calleeGhost != nil {
+				return scalar(c.calleeGhostTerm(fmt.Sprintf("lastret:%s:%d", name, i), SInt, false), nil)
+			}
 			if t, ok := c.st.ghost[fmt.Sprintf("lastret:%s:%d", name, i)]; ok {
 				return scalar(t, nil)
 			}
